@@ -13,8 +13,8 @@ ID = 'C02'
 META = {
     'rule': "full product of 41 data representatives (16 kinds incl. integral floats, digit / 'true' / ISO-date strings, str "
             "subclass instances, empty containers, lists of pairs) x 36 target types (all scalar kinds, enums, literals, scalar "
-            "subclasses, every container kind, struct literal, struct-only and tuple-layout dataclasses, Optional) x 14 embedding "
-            "contexts (thorough: all 196 ordered pairs of contexts); a pair forbidden by the statement must raise ConvertError, in a "
+            "subclasses, every container kind, struct literal, struct-only and tuple-layout dataclasses, Optional) x 15 embedding "
+            "contexts (thorough: all 225 ordered pairs of contexts); a pair forbidden by the statement must raise ConvertError, in a "
             "union context the datum must come back as itself through its own-kind member, and the lossless widenings int->float->complex "
             "must succeed with the exact widened value. Non-trivial: forbidden or widening cell in a non-top context; key = (value kind, target, context, verdict).",
     'assumptions': ["bool->number and int 0/1->bool cells are UNSPEC (Python bool is an int); str -> Decimal/Fraction/date/time/datetime/Pattern/path "
@@ -71,7 +71,8 @@ def verdict(vkind, v, ast, accepted):
     if ast == 'lit_mixed' and vkind in ('bool', 'float'):
         return 'unspec'            # 1 == True == 1.0
     if ast in ('enum_int',) and vkind in ('bool', 'float', 'complex'):
-        return 'forbidden' if vkind == 'complex' and v != 2 else 'unspec' if v in (1, 2, True, 1.0, 2.0, complex(2, 0)) else 'forbidden'
+        # an int-valued enum converts through int: a float or complex is never an int (firm); a bool is an int (UNSPEC)
+        return 'unspec' if vkind == 'bool' else 'forbidden'
     return 'forbidden'
 
 
@@ -106,6 +107,12 @@ def _dc_after_noinit(pane, T):
     return grammar.pin(type('CtxNoinit', (pane.PaneBase,), ns, in_format=('tuple', 'struct')))
 
 
+def _dc_default(pane, T):
+    """Struct-layout class whose field has a default: an explicit wrong-kind value must not be treated as 'omitted'."""
+    ns = {'__annotations__': {'f': T, 'g': int}, 'f': pane.field(default=None), 'g': 0, '__module__': 'mc.generated'}
+    return grammar.pin(type('CtxDefault', (pane.PaneBase,), ns))
+
+
 def contexts(pane):
     def hashable(v):
         try:
@@ -127,6 +134,7 @@ def contexts(pane):
         ('dc_field_by_name', lambda T, v: _dc(pane, T, False), lambda v: {'f': v}, lambda r: r.f, None),
         ('dc_field_by_position', lambda T, v: _dc(pane, T, True), lambda v: [v], lambda r: r.f, None),
         ('set_elem', lambda T, v: t.FrozenSet[T], lambda v: [v], lambda r: next(iter(r)), hashable),
+        ('dc_field_with_default', lambda T, v: _dc_default(pane, T), lambda v: {'f': v}, lambda r: r.f, None),
         ('dc_position_after_noinit_field', lambda T, v: _dc_after_noinit(pane, T), lambda v: [v], lambda r: r.f, None),
     ]
 
